@@ -467,6 +467,13 @@ def run_recorded(spec, fname, p=None, handles=None, fast=True):
             fails.append(p.run_driver(case_prefix=op.get('prefix'), reset_iter_counts=op.get('reset', True)))
         elif op['op'] == 'record':
             p.record(op['name'])
+        elif op['op'] == 'recopts':
+            r = spec['recorders'][op['rec']]
+            obj = handles[key_of(r)]
+            dflt = dict(DEFAULT_OPTS[r['on']])
+            dflt.update(op['opts'])
+            for k, val in dflt.items():       # the new option set replaces the old one completely
+                obj.recording_options[k] = val
     info = {'out_off': Offsets(model._outputs), 'in_off': Offsets(model._inputs), 'res_off': Offsets(model._residuals),
             'fails': fails}
     return p, log, info
@@ -728,8 +735,7 @@ def recording_strategy(spec, max_recorders=4, min_recorders=1, need=None):
                 return '*.' + nme.rsplit('.', 1)[1]
             return '*' + nme[-1]
 
-        recs = []
-        for kind, P in chosen:
+        def draw_opts(kind, P):
             opts = {}
             dflt = DEFAULT_OPTS[kind]
             for k, dv in dflt.items():
@@ -748,7 +754,11 @@ def recording_strategy(spec, max_recorders=4, min_recorders=1, need=None):
                 opts['includes'] = [pattern(P, rel_only) for _ in range(draw(st.integers(1, 3)))]
             if draw(st.integers(0, 2)) == 0:
                 opts['excludes'] = [pattern(P, rel_only) for _ in range(draw(st.integers(1, 2)))]
-            r = {'on': kind, 'opts': opts}
+            return opts
+
+        recs = []
+        for kind, P in chosen:
+            r = {'on': kind, 'opts': draw_opts(kind, P)}
             if kind in ('system', 'solver'):
                 r['path'] = P
             recs.append(r)
@@ -788,6 +798,20 @@ def recording_strategy(spec, max_recorders=4, min_recorders=1, need=None):
                 ops.append(op)
         if nrun == 0:
             ops.append({'op': 'run_driver' if draw(st.booleans()) else 'run_model'})
+        # the recording options of the problem and of the driver are read again by every run (final_setup): before a
+        # later run they may be changed, and the cases of that run follow the new options
+        top = [j for j, r in enumerate(recs) if r['on'] in ('problem', 'driver')]
+        if top:
+            seen_run = False
+            with_changes = []
+            for op in ops:
+                if op['op'] in ('run_model', 'run_driver'):
+                    if seen_run and draw(st.integers(0, 2)) == 0:
+                        j = draw(st.sampled_from(top))
+                        with_changes.append({'op': 'recopts', 'rec': j, 'opts': draw_opts(recs[j]['on'], '')})
+                    seen_run = True
+                with_changes.append(op)
+            ops = with_changes
         if any(r['on'] == 'problem' for r in recs) and nrec == 0:
             ops.append({'op': 'record', 'name': 'final'})
         out = dict(spec)
